@@ -48,7 +48,7 @@ class Loader(object):
         self.io_events = []
         self.leaks = 0
 
-    def load(self, name, cls='FCSFile', rewrite=True, fileobj=False):
+    def load(self, name, cls='FCSFile', rewrite=True, fileobj=False, mmap_fail=False):
         # rewrite=False boots the code again on the very same materialised file (same inode, same mtime)
         path = self.disk.materialise(name) if rewrite else self.disk.path(name)
         ev = []
@@ -63,7 +63,15 @@ class Loader(object):
             # documented alternative: the caller hands in an open binary file instead of a path
             fobj = open(path, 'rb')
             path = seams.RecFile(fobj, name, ev)
-        with seams.patched(self.F.io, 'open', seam):
+        import contextlib
+        import errno
+
+        def no_mmap(*a, **kw):
+            # the system call fails: file systems without mmap support (some network / FUSE mounts) answer ENODEV
+            ev.append(('mmap', name, 'ENODEV(injected)'))
+            raise OSError(errno.ENODEV, 'No such device (injected)')
+        mm = seams.patched(np, 'memmap', no_mmap) if mmap_fail else contextlib.nullcontext()
+        with seams.patched(self.F.io, 'open', seam), mm:
             with warnings.catch_warnings(record=True) as w:
                 warnings.simplefilter('always')
                 try:
@@ -437,7 +445,14 @@ class C16Machine(Machine):
                 for f in case['fields']:
                     bump(faults, 'field:%s:%s' % (fcsgen.field_class(f['field']), f['dir']))
                 cls = 'FCSFile' if (c is None or c % 5) else 'FCSData'
-                o = ld.load('x.fcs', cls)
+                mode = None
+                if c is not None and not spec0.get('bulk'):
+                    # a share of the boots goes through a stream without file descriptor, or meets a failing mmap()
+                    mode = {3: 'bytesio', 11: 'mmap_enodev'}.get(c % 13)
+                o = ld.load('x.fcs', cls, fileobj=('bytesio' if mode == 'bytesio' else False),
+                            mmap_fail=(mode == 'mmap_enodev'))
+                if mode:
+                    bump(faults, mode)
                 out['evals'] += 1
                 kind = ('field' if case['fields'] else '') + ('+' if case['fields'] and c is not None else '') + \
                     ('truncate' if c is not None else '')
